@@ -31,6 +31,11 @@ pub struct ProbeCase {
     pub mode: ProbeMode,
     pub regs: RegFile,
     pub sig: u8,
+    /// Some((page, off)): the fake handed to the injector is a register-neutral thunk
+    /// (`jmp [rip+0]; .quad probe_fake`) placed at 0x8000_0000 + page*4096 + off, i.e. in the
+    /// upper half of the low 4 GiB (bit 31 set), or, if `low` is false, anywhere in the low 4 GiB
+    #[serde(default)]
+    pub fake_thunk: Option<(u32, u16, bool)>,
 }
 
 #[derive(Serialize, Deserialize, Clone, Debug, Default)]
@@ -94,6 +99,24 @@ pub fn execute(c: &ProbeCase) -> ProbeObs {
         }
     };
     o.target = target as u64;
+    // ---- where the fake lives
+    let mut _thunk_arena = None;
+    let mut fake_ptr = probe_fake as unsafe extern "C" fn() as usize;
+    if let Some((page, off, high)) = c.fake_thunk {
+        let base = if high { 0x8000_0000usize + ((page as usize) % 0x7FFF0) * PAGE } else { 0x1000_0000usize + ((page as usize) % 0xEFFF0) * PAGE };
+        let Some(a) = Arena::map(base, 2 * PAGE) else {
+            o.status = "discarded".into();
+            o.why = format!("thunk arena {base:#x} not mappable");
+            return o;
+        };
+        let addr = base + (off as usize % (PAGE - 16));
+        let mut code = vec![0xFFu8, 0x25, 0, 0, 0, 0];
+        code.extend_from_slice(&(fake_ptr as u64).to_le_bytes());
+        a.put(addr, &code);
+        a.seal();
+        _thunk_arena = Some(a);
+        fake_ptr = addr;
+    }
     let mut ctx = ctx_from(&c.regs, target as u64);
     let mut rec = rec_from(&c.regs);
     unsafe {
@@ -108,7 +131,7 @@ pub fn execute(c: &ProbeCase) -> ProbeObs {
                 match c.mode {
                     ProbeMode::Fake => {
                         let sig = FAKE_SIGS[c.sig as usize % FAKE_SIGS.len()];
-                        inj.when_called(FuncPtr::new(target as *const (), sig)).will_execute_raw(FuncPtr::new(probe_fake as unsafe extern "C" fn() as *const (), sig));
+                        inj.when_called(FuncPtr::new(target as *const (), sig)).will_execute_raw(FuncPtr::new(fake_ptr as *const (), sig));
                     }
                     ProbeMode::Bool(v) => {
                         let sig = BOOL_SIGS[c.sig as usize % BOOL_SIGS.len()];
@@ -168,7 +191,7 @@ pub fn strategy(modes: Vec<ProbeMode>) -> impl Strategy<Value = ProbeCase> {
         1 => (0u8..2).prop_map(ProbePlace::Text),
         1 => (0u8..5, any::<u64>(), prop_oneof![3 => 0u16..0x1000, 1 => 0xFF0u16..=0xFFF]).prop_map(|(class, page, off)| ProbePlace::Arena { class, page, off }),
     ];
-    (place, proptest::sample::select(modes), regfile(), any::<u8>()).prop_map(|(place, mode, regs, sig)| ProbeCase { place, mode, regs, sig })
+    (place, proptest::sample::select(modes), regfile(), any::<u8>(), prop::option::weighted(0.4, (any::<u32>(), 0u16..0x1000, prop::bool::weighted(0.6)))).prop_map(|(place, mode, regs, sig, fake_thunk)| ProbeCase { place, mode, regs, sig, fake_thunk })
 }
 
 pub fn judge(rec: &mut Recorder, c: &ProbeCase, ex: Exec, _hello: &Value) -> Result<(), String> {
@@ -215,6 +238,9 @@ pub fn judge(rec: &mut Recorder, c: &ProbeCase, ex: Exec, _hello: &Value) -> Res
     match c.mode {
         ProbeMode::Fake => {
             rec.class(if o.long_form { "fake/long-trampoline" } else { "fake/short-trampoline" });
+            if let Some((_, _, high)) = c.fake_thunk {
+                rec.class(if high { "fake-via-thunk/bit31-set" } else { "fake-via-thunk/low-4GiB" });
+            }
             if o.fake_hits != 1 {
                 return rec.fail(&sig("fake-not-reached-once"), format!("the fake was entered {} times (original ran {} times, rax {:#x}); case {c:?}", o.fake_hits, o.orig_hits, o.out_rax));
             }
